@@ -201,6 +201,19 @@ def find_impl_body(toks, type_name, trait_name=None):
         if dm[k] == 0 and t.kind == 'ident' and t.text == 'impl':
             # find the `{`
             j = k + 1
+            if toks[j].text == '<':
+                # generic parameters of the impl (`impl<T: Clone + Debug> Type<T>`): not part of the implemented type's path
+                ad = 0
+                while True:
+                    if toks[j].text == '<':
+                        ad += 1
+                    elif toks[j].text == '>':
+                        ad -= 1
+                    elif toks[j].text == '>>':
+                        ad -= 2
+                    j += 1
+                    if ad <= 0:
+                        break
             names = []
             while toks[j].text != '{':
                 if toks[j].kind == 'ident':
